@@ -90,6 +90,21 @@ std::vector<GeomDef> build_family(const Params &P) {
       geoms.push_back(h);
     }
   }
+  // clouds whose point->value map is not the identity: three points sharing two values (0,0,1) and (1,0,1) for every ordered pair
+  for (size_t i = 0; i < D.size(); ++i)
+    for (size_t j = 0; j < D.size(); ++j) {
+      if (i == j) continue;
+      for (int m = 0; m < 2; ++m) {
+        GeomDef h;
+        h.is_mesh = false;
+        h.num_points = 3;
+        AttDef b = pos_att();
+        b.entries = {bytes_of(pt((int)i)), bytes_of(pt((int)j))};
+        b.map = m == 0 ? std::vector<int>{0, 0, 1} : std::vector<int>{1, 0, 1};
+        h.atts = {b};
+        geoms.push_back(h);
+      }
+    }
   // meshes: every triangle over the 9 diagonal points, and two triangles sharing an edge with every 4th point
   for (int i = 0; i < 9; ++i)
     for (int j = i + 1; j < 9; ++j)
@@ -191,7 +206,8 @@ int run_param_set(const Params &P, mc::Ctx &ctx, bool expert_only) {
           // match decoded points to source points: sequential keeps order; for kd-tree/Edgebreaker match through the
           // reference quantization of the source (the multiset is compared)
           std::vector<std::array<float, 3>> srcv, decv;
-          for (auto &e : g.atts[0].entries) {
+          for (int sp = 0; sp < g.num_points; ++sp) {
+            const Bytes &e = g.atts[0].entries[g.atts[0].map.empty() ? sp : g.atts[0].map[sp]];
             std::array<float, 3> v;
             memcpy(v.data(), e.data(), 12);
             srcv.push_back(v);
@@ -272,7 +288,8 @@ int run_c04_set(const Params &P, mc::Ctx &ctx) {
     const PointCloud &src = g.is_mesh ? *mesh : *cloud;
     // source values and extents
     std::vector<std::array<float, 3>> srcv;
-    for (auto &e : g.atts[0].entries) {
+    for (int sp = 0; sp < g.num_points; ++sp) {
+      const Bytes &e = g.atts[0].entries[g.atts[0].map.empty() ? sp : g.atts[0].map[sp]];
       std::array<float, 3> v;
       memcpy(v.data(), e.data(), 12);
       srcv.push_back(v);
@@ -341,6 +358,26 @@ int run_c04_set(const Params &P, mc::Ctx &ctx) {
             decv.push_back(v);
           }
           const bool ordered = gs::stream_method(enc.bytes) == 0 && decv.size() == srcv.size();
+          // kd-tree keeps every point (in another order): the decoded points must match the source points ONE TO ONE within the
+          // allowance (nearest-neighbour matching alone would accept a lost duplicate or a value given to the wrong point)
+          if (!g.is_mesh && !ordered && decv.size() == srcv.size() && srcv.size() <= 6) {
+            std::vector<int> perm(srcv.size());
+            for (size_t i = 0; i < perm.size(); ++i) perm[i] = (int)i;
+            bool found = false;
+            do {
+              bool all = true;
+              for (size_t i = 0; i < srcv.size() && all; ++i)
+                for (int k = 0; k < 3; ++k)
+                  if (fabsl((long double)decv[perm[i]][k] - (long double)srcv[i][k]) > allow) { all = false; break; }
+              found = all;
+            } while (!found && std::next_permutation(perm.begin(), perm.end()));
+            ctx.count("clouds_matched_one_to_one");
+            if (!found) {
+              ctx.fail(std::string("e2e:no-one-to-one-match-within-half-step|") + (automatic ? "automatic-range" : "explicit-range") + "|kd-tree",
+                       ptxt + " " + text(g) + " " + text(c));
+              continue;
+            }
+          }
           for (size_t i = 0; i < srcv.size(); ++i) {
             long double best = 1e300L;
             size_t bj = 0;
